@@ -98,12 +98,7 @@ def run(ck, fb, fbd):
                 desc = "inner_product(%s, %s, %s, init=%s)" % (a[0][:25], a[1][:25], a[2][:25], a[3][:40])
             (ck.ok if ok else lambda r, w, t: ck.violate(r, w, t, "C19.reduce:%s" % f.name))("C19.reduce", f.loc(x), "%s::%s: %s skips exactly the element(s) that form the initial value" % (f.cls.replace("OpenVolumeMesh::Geometry::", ""), f.name if not f.d.get("op") else "operator" + f.d["op"], desc))
     ck.floor("reduction_sites", nred, 8)
-    for f in vec_fns(fb, name="mean"):
-        rets = [x for b, i, x in f.tops() if x.get("k") == "ret"]
-        s = estr(rets[0]) if rets else ""
-        dim = f.cls.rstrip(">").split(",")[-1].strip()
-        ok = "l1_norm()" in s and "/ %s" % dim in s
-        (ck.ok if ok else lambda r, w, t: ck.violate(r, w, t, "C19.reduce:mean"))("C19.reduce", f.where, "mean() = l1_norm()/DIM (%s)" % s[:50])
+    # mean(): judged by C19.l1 (it used to be required to be l1_norm()/DIM - which is what made the signed "norm" necessary, F32)
     # ---------------- component-wise operators
     nsc = nvec = 0
     for f in vec_fns(fb):
@@ -161,6 +156,7 @@ def run(ck, fb, fbd):
             full = any(x.get("pn", "") in ("std::transform", std) and "cbegin()" in estr(f.resolve(x["a"][0])) and "cend()" in estr(f.resolve(x["a"][1])) for b, i, x in f.nodes(("call",)))
             (ck.ok if (ok and full) else lambda r, w, t: ck.violate(r, w, t, "C19.compwise:%s" % name))("C19.compwise", f.where, "%s::%s uses %s over the full extent" % (f.cls.replace("OpenVolumeMesh::Geometry::", ""), name, std))
     abs_reductions(ck, fb)
+    norm_and_apply(ck, fb)
     normal_attrib(ck, fb)
     # ---------------- geometry kernel
     ng = 0
@@ -225,6 +221,46 @@ def run(ck, fb, fbd):
                     why = "points %s around %d increment(s)" % ([e for p_, e in pts], len(steps))
             (ck.ok if ok else lambda r, w, t: ck.violate(r, w, t, "C19.geom:normal"))("C19.geom", f.where, "normal(hf) = ((p2-p1) x (p3-p2)).normalized() with p1,p2 the ends of the first and p3 the end of the second halfedge of the halfface (%s)" % why)
     ck.floor("geometry_queries", ng, 12)
+
+
+def norm_and_apply(ck, fb):
+    """l1_norm / mean / mean_abs / apply: what is summed resp. transformed (found through the round-4 C19 probes, F32/F33)"""
+    from .canon import Canon
+    ck.rule("C19.l1", "l1_norm and mean_abs accumulate ABSOLUTE values (initial value abs(values_[0]), step l + abs(r)); mean accumulates the plain components (initial value values_[0], no custom step) and divides by DIM; mean_abs divides by DIM, l1_norm does not")
+    ck.rule("C19.apply", "apply(f) transforms the vector's own components [values_.cbegin(), values_.cend()) into the result (never the result's uninitialised components)")
+    n = 0
+    for name in ("l1_norm", "mean", "mean_abs"):
+        for f in vec_fns(fb, name=name):
+            n += 1
+            cn = Canon(f)
+            rets = [x for b, i, x in f.tops() if x.get("k") == "ret"]
+            s = cn.s(rets[0].get("x")) if len(rets) == 1 else ""
+            lln = re.search(r"\[lambda@(\d+)\]", s)
+            lam = [g for g in fb.fns.values() if g.kind == "lambda" and g.has_cfg and g.file == f.file and lln and g.line == int(lln.group(1))][:1]
+            ls = ""
+            if lam:
+                lrets = [x for b, i, x in lam[0].tops() if x.get("k") == "ret"]
+                ls = Canon(lam[0]).s(lrets[0].get("x")) if len(lrets) == 1 else ""
+            absform = bool(re.fullmatch(r"\(?accumulate\(\(?values_\.cbegin\(\) \+ 1\)?, values_\.cend\(\), abs\(values_\[0\]\), \[lambda@\d+\]\)( / (\([a-z ]+\))?\d+)?\)?", s)) and ls in ("(P0 + abs(P1))", "(abs(P1) + P0)")
+            plain = bool(re.fullmatch(r"\(?accumulate\(\(?values_\.cbegin\(\) \+ 1\)?, values_\.cend\(\), values_\[0\]\)( / (\([a-z ]+\))?\d+)?\)?", s))
+            divided = " / " in s
+            if name == "l1_norm":
+                ok = absform and not divided
+            elif name == "mean_abs":
+                ok = absform and divided
+            else:
+                ok = plain and divided
+            if not (absform or plain):
+                ck.cannot_judge("%s: %s is written in a form rule C19.l1 does not know (%s) - re-audit" % (f.where, name, s[:80]))
+                continue
+            (ck.ok if ok else lambda r, w, t: ck.violate(r, w, t, "C19.l1:%s" % name))("C19.l1", f.where, "%s::%s sums %s values%s (found %s%s)" % (f.cls.replace("OpenVolumeMesh::Geometry::", ""), name, "plain" if name == "mean" else "absolute", "" if name == "l1_norm" else " and divides by DIM", s[:70], (" with step " + ls) if ls else ""))
+    for f in vec_fns(fb, name="apply"):
+        n += 1
+        tr = [x for b, i, x in f.nodes(("call",)) if x.get("pn", "") == "std::transform" and b in f.reach()]
+        cn = Canon(f)
+        ok = len(tr) == 1 and len(tr[0].get("a", [])) >= 3 and cn.s(tr[0]["a"][0]).replace("this.", "") in ("values_.cbegin()", "values_.begin()") and cn.s(tr[0]["a"][1]).replace("this.", "") in ("values_.cend()", "values_.end()") and re.fullmatch(r"(v\d+|VectorT\(\))\.values_\.begin\(\)", cn.s(tr[0]["a"][2]) or "") is not None
+        (ck.ok if ok else lambda r, w, t: ck.violate(r, w, t, "C19.apply"))("C19.apply", f.where, "%s::apply transforms values_ into the result (found transform(%s))" % (f.cls.replace("OpenVolumeMesh::Geometry::", ""), ", ".join(cn.s(a)[:25] for a in (tr[0].get("a", []) if tr else []))))
+    ck.floor("norm_and_apply_members", n, 3)
 
 
 def abs_reductions(ck, fb):
